@@ -43,6 +43,8 @@ pub fn layouts() -> Vec<Layout> {
         mk("file-path", "t:\n  build: ':'\n  input: [{paths: [src/a.txt]}]\n  output: [{paths: [out/o.txt]}]\n", vec!["out/o.txt"]),
         mk("directory", "t:\n  build: ':'\n  input: [{paths: [src]}]\n  output: [{paths: [out]}]\n", vec!["out/o.txt"]),
         mk("directory+extensions", "t:\n  build: ':'\n  input: [{paths: [src], extensions: [txt]}]\n  output: [{paths: [out], extensions: [txt]}]\n", vec!["out/o.txt", "out/o.bin"]),
+        // the same, in a project whose directory lies below a directory named like zinoma's work directory
+        mk("directory-below-a-.zinoma-ancestor", "t:\n  build: ':'\n  input: [{paths: [src]}]\n  output: [{paths: [out]}]\n", vec!["out/o.txt"]),
         mk("overlapping-paths", "t:\n  build: ':'\n  input: [{paths: [src, src/sub]}]\n  output: [{paths: [out/o.txt]}]\n", vec!["out/o.txt"]),
         // the same file denoted by two separate resource entries of one target
         mk("overlapping-resources", "t:\n  build: ':'\n  input: [{paths: [src]}, {paths: [src/sub]}, {paths: [src/a.txt]}]\n  output: [{paths: [out]}, {paths: [out/o.txt]}]\n", vec!["out/o.txt"]),
@@ -753,7 +755,8 @@ pub fn run_histories_part(l: &Layout, ops: &[Op], len1: usize, len2: usize, orac
                 continue;
             }
             static SEQ: AtomicU64 = AtomicU64::new(0);
-            let root = scratch(&format!("{}-{}-{}-{}", tag, l.name, case, SEQ.fetch_add(1, Ordering::SeqCst)));
+            let base = scratch(&format!("{}-{}-{}-{}", tag, l.name, case, SEQ.fetch_add(1, Ordering::SeqCst)));
+            let root = project_root(l, &base);
             let mut sc = materialise(l, &root);
             let mut log: Vec<String> = vec![];
             let mut bad: Option<(String, String)> = None;
@@ -823,10 +826,17 @@ pub fn run_histories_part(l: &Layout, ops: &[Op], len1: usize, len2: usize, orac
                 let ops_class: Vec<String> = h1.iter().chain(h2.map(|h| h.iter()).into_iter().flatten()).map(|o| format!("{:?}", o).split('(').next().unwrap_or("").to_string()).collect();
                 out.violations.push((format!("{} [layout={} ops={}]", fp, l.name, ops_class.join(",")), format!("{}\nlayout {}\n{}", why, l.name, log.join("\n")), json!({"engine": "seqcheck", "check": tag, "layout": l.name, "h1": h1.iter().map(|o| format!("{:?}", o)).collect::<Vec<_>>(), "h2": h2.map(|h| h.iter().map(|o| format!("{:?}", o)).collect::<Vec<_>>()), "log": log})));
             }
-            let _ = std::fs::remove_dir_all(&root);
+            let _ = std::fs::remove_dir_all(&base);
         }
     }
     out
+}
+
+/// where the project of a layout is placed below its scratch directory
+pub fn project_root(l: &Layout, base: &Path) -> PathBuf {
+    let root = if l.name == "directory-below-a-.zinoma-ancestor" { base.join(".zinoma/generated/proj") } else { base.to_path_buf() };
+    std::fs::create_dir_all(&root).unwrap();
+    root
 }
 
 /// run; drop the record; run with one operation performed *while the script runs*; run — the last invocation must
@@ -838,7 +848,8 @@ pub fn run_during_script(l: &Layout, ops: &[Op], oracle: Oracle, tag: &str) -> H
             continue;
         }
         static SEQ: AtomicU64 = AtomicU64::new(0);
-        let root = scratch(&format!("{}-during-{}-{}-{}", tag, l.name, k, SEQ.fetch_add(1, Ordering::SeqCst)));
+        let base = scratch(&format!("{}-during-{}-{}-{}", tag, l.name, k, SEQ.fetch_add(1, Ordering::SeqCst)));
+        let root = project_root(l, &base);
         let mut sc = materialise(l, &root);
         let mut log: Vec<String> = vec![];
         let mut bad: Option<(String, String)> = None;
@@ -879,7 +890,7 @@ pub fn run_during_script(l: &Layout, ops: &[Op], oracle: Oracle, tag: &str) -> H
         if let Some((fp, why)) = bad {
             out.violations.push((format!("{} [layout={} ops={}]", fp, l.name, format!("{:?}", op).split('(').next().unwrap_or("")), format!("{}\nlayout {}\n{}", why, l.name, log.join("\n")), json!({"engine": "seqcheck", "check": tag, "layout": l.name, "during_script": format!("{:?}", op), "log": log})));
         }
-        let _ = std::fs::remove_dir_all(&root);
+        let _ = std::fs::remove_dir_all(&base);
     }
     out
 }
